@@ -183,12 +183,15 @@ where
     ) -> Poll<Result<Option<C::BidiStream>, ConnectionError>> {
         let _ = self.poll_control(cx)?;
         let _ = self.poll_requests_completion(cx);
+        // A request beyond the identifier of the GOAWAY which was sent has been rejected
+        let mut rejected = false;
         loop {
             let conn = self.inner.poll_accept_bi(cx)?;
             return match conn {
                 Poll::Pending => {
                     let done = if conn.is_pending() {
-                        self.recv_closing.is_some() && self.poll_requests_completion(cx).is_ready()
+                        (self.recv_closing.is_some() || rejected)
+                            && self.poll_requests_completion(cx).is_ready()
                     } else {
                         self.poll_requests_completion(cx).is_ready()
                     };
@@ -209,9 +212,9 @@ where
                         if s.send_id() >= max_id {
                             s.stop_sending(Code::H3_REQUEST_REJECTED.value());
                             s.reset(Code::H3_REQUEST_REJECTED.value());
-                            if self.poll_requests_completion(cx).is_ready() {
-                                break Poll::Ready(Ok(None));
-                            }
+                            // Further streams can be waiting behind this one: each of them is
+                            // either served or rejected before "no more requests" is reported
+                            rejected = true;
                             continue;
                         }
                     }
